@@ -10,8 +10,13 @@ from pathlib import Path
 
 VERIF = Path(__file__).resolve().parent.parent
 REPO = Path(os.environ.get("VERIF_REPO", "/repo"))
-CACHE = VERIF / ".cache"
-WORK = VERIF / ".work"
+# VERIF_REPO (default /repo) lets the machinery be pointed at a scratch worktree with a seeded change, with
+# its own cache / work / evidence / replay directories, so that such a trial never touches what the registered
+# checks use.  The registered commands never set it.
+ALT = None if str(REPO) == "/repo" else "alt_" + hashlib.sha1(str(REPO).encode()).hexdigest()[:8]
+CACHE = VERIF / ".cache" if ALT is None else VERIF / ".cache" / ALT
+WORK = VERIF / ".work" if ALT is None else VERIF / ".work" / ALT
+OUT = VERIF if ALT is None else CACHE / "out"      # evidence/ and replays/ live under OUT
 TARGET = CACHE / "target"
 TARGET_REPO = CACHE / "target-repo"   # /repo's own workspace build: must not share artefacts with vprobe's
 
@@ -64,6 +69,21 @@ def _cargo(args, cwd, what, target=None):
     log(f"[build] {what}: {time.time() - t:.1f}s")
 
 
+def probe_crate() -> Path:
+    """the vprobe crate; for an alternative repository a copy whose path dependency points there"""
+    src = VERIF / "rust" / "probe"
+    if ALT is None:
+        return src
+    import shutil
+    dst = CACHE / "probe"
+    if dst.exists():
+        shutil.rmtree(dst)
+    shutil.copytree(src, dst)
+    t = (dst / "Cargo.toml").read_text().replace('path = "/repo"', f'path = "{REPO}"')
+    (dst / "Cargo.toml").write_text(t)
+    return dst
+
+
 def build_probe(profile="dev") -> Path:
     """(Re)builds vprobe against /repo's current working tree (cargo decides what is stale)."""
     key = ("probe", profile)
@@ -71,7 +91,7 @@ def build_probe(profile="dev") -> Path:
         args = ["build", "--offline"]
         if profile == "release":
             args.append("--release")
-        _cargo(args, VERIF / "rust" / "probe", f"vprobe[{profile}]")
+        _cargo(args, probe_crate(), f"vprobe[{profile}]")
         _built[key] = TARGET / ("release" if profile == "release" else "debug") / "vprobe"
     return _built[key]
 
